@@ -290,30 +290,21 @@ impl StreamData {
     
     /// Range query with cache-coherent access
     fn range(&self, start: &StreamId, end: &StreamId, count: Option<usize>, reverse: bool) -> StreamRangeResult {
-        // Binary search for efficient range access on sorted Vec
-        let start_idx = self.entries.binary_search_by(|e| e.id.cmp(start))
-            .unwrap_or_else(|idx| idx);
-        
-        let end_idx = self.entries.binary_search_by(|e| e.id.cmp(end))
-            .unwrap_or_else(|idx| if idx > 0 { idx - 1 } else { 0 });
+        // Binary search for efficient range access on sorted Vec:
+        // [start_idx, end_idx) = entries with start <= id <= end
+        let start_idx = self.entries.partition_point(|e| e.id < *start);
+        let end_idx = self.entries.partition_point(|e| e.id <= *end);
         
         let mut result_entries = Vec::new();
         
-        if reverse {
-            for i in (start_idx..=end_idx.min(self.entries.len().saturating_sub(1))).rev() {
-                if let Some(count) = count {
-                    if result_entries.len() >= count { break; }
-                }
-                if i < self.entries.len() {
+        if start_idx < end_idx {
+            let limit = count.unwrap_or(usize::MAX).min(end_idx - start_idx);
+            if reverse {
+                for i in (start_idx..end_idx).rev().take(limit) {
                     result_entries.push(self.entries[i].clone());
                 }
-            }
-        } else {
-            for i in start_idx..=end_idx.min(self.entries.len().saturating_sub(1)) {
-                if let Some(count) = count {
-                    if result_entries.len() >= count { break; }
-                }
-                if i < self.entries.len() {
+            } else {
+                for i in (start_idx..end_idx).take(limit) {
                     result_entries.push(self.entries[i].clone());
                 }
             }
